@@ -440,6 +440,9 @@ class DeclaredVsExtracted(Stream):
             # analysed by the fallback; the second project imports a helper module of the same name
             b.update(style="kwargs", prelude=["import-helper", "spawn-uncaught"])
             a.update(style="kwargs", **rng.choice([{"version_from": "module"}, {"reqs_from": "helper"}, {"version_from": "module", "reqs_from": "helper"}]))
+        elif rng.random() < 0.15:
+            # the first project cannot be analysed at all: its PEP 517 backend rejects the declaration
+            b.update(style="pyproject", broken_backend=True)
         elif rng.random() < 0.25:
             a["prelude"] = rng.sample(["spawn", "print", "chdir-here", "exists", "listdir", "warn", "import-helper", "syspath-src"], rng.randint(1, 2))
         return {"first": b, "spec": a, "cwd": rng.choice(["neutral", "project", "parent"])}
@@ -453,12 +456,17 @@ class DeclaredVsExtracted(Stream):
         keep = PS.ORIG_GETCWD()
         before = keep_state if keep_state is not None else PS.take()
         PS.ORIG_CHDIR(real_cwd)
+        moved = [None]
         try:
             with contextlib.redirect_stderr(io.StringIO()), contextlib.redirect_stdout(io.StringIO()):
-                r = req_compile.metadata.extract_metadata(path)
-            return {"name": r.name, "version": str(r.version), "views": views_of_result(r, sorted(e.lower() for e in spec["extras"]))}
+                try:
+                    r = req_compile.metadata.extract_metadata(os.path.relpath(path, real_cwd) if pk == "dir" and cwd_kind != "project" else path)
+                finally:
+                    moved[0] = PS.ORIG_GETCWD() != os.path.realpath(real_cwd) and PS.ORIG_GETCWD() != real_cwd
+            return {"name": r.name, "version": str(r.version), "views": views_of_result(r, sorted(e.lower() for e in spec["extras"])),
+                    "cwd_moved": moved[0]}
         except BaseException as ex:
-            return {"error": type(ex).__name__, "metadata_error": type(ex).__name__ == "MetadataError"}
+            return {"error": type(ex).__name__, "metadata_error": type(ex).__name__ == "MetadataError", "cwd_moved": moved[0]}
         finally:
             if keep_state is None:
                 PS.restore(before)       # the second project of a pair sees whatever the first one left behind
@@ -509,6 +517,14 @@ class DeclaredVsExtracted(Stream):
         fails = []
         for which, decl, per, spec in (("", r["declared"], r["per"], case["spec"]), ("first-", r["declared_first"], r["first"], case["first"])):
             for pk, got in per.items():
+                if got.get("cwd_moved"):
+                    fails.append(("C12/analysis-leaves-another-working-directory", {"packaging": pk, "project": spec["name"], "style": spec["style"]}))
+                got = {k: v for k, v in got.items() if k != "cwd_moved"}
+                if spec.get("broken_backend"):
+                    # cannot be analysed: must be reported as a metadata failure (archives: D34 region anyway)
+                    if pk == "dir" and not ("error" in got and got.get("metadata_error")):
+                        fails.append(("C12/unanalysable-project-not-a-metadata-failure/pyproject-backend-raises", {"packaging": pk, "got": got}))
+                    continue
                 if got == decl:
                     continue
                 if spec["style"] == "pyproject" and pk != "dir":
